@@ -1913,3 +1913,18 @@ M("c07-running-wait-relooks-every-second", "C07", "R1.replayed-wait-parks-until-
   "            if resume_at <= now:", "            if not resume_at <= now:")
 M("c17-two-record-history-starts-new", "C17", "R3.replay-decision-right-way-round", "execution.py",
   "            if len(invocation_input.initial_execution_state.operations) > 1", "            if len(invocation_input.initial_execution_state.operations) > 2")
+M("c09-suspension-raised-whenever-recorded", "C09", "R5.decided-policy-overrules-a-recorded-suspension", "concurrency/executor.py",
+  "                if self._suspend_exception and not decided:", "                if self._suspend_exception or not decided:")
+M("c09-pool-size-ignores-the-limit", "C09", "R2.pool-bounded-by-max-concurrency", "concurrency/executor.py",
+  "        max_workers = self.max_concurrency or len(self.executables)", "        max_workers = self.max_concurrency and len(self.executables)")
+M("c09-percentage-divided-by-zero-inputs", "C09", "R3.division-by-a-count-is-guarded", "concurrency/models.py",
+  "                    and total_count > 0", "                    and total_count >= 0")
+M("c07-resubmission-without-refresh", "C07", "R3.resubmission-refreshes-the-state-first", "concurrency/executor.py",
+  "            try:\n                execution_state.create_checkpoint()\n            except BaseException as e:  # noqa: BLE001", "            try:\n                pass\n            except BaseException as e:  # noqa: BLE001")
+M("c15-one-token-is-enough-for-an-envelope", "C15", "R4.unwrap-recognises-envelopes", "serdes.py",
+  "            case dict() if TYPE_TOKEN in obj and VALUE_TOKEN in obj:", "            case dict() if TYPE_TOKEN in obj or VALUE_TOKEN in obj:")
+M("c10-query-never-raises", "C10", "R6.read-only-query-asks-what-the-guard-asks", "state.py",
+  "                error_msg = \"Parent context completed, child operation cannot continue\"\n                raise OrphanedChildException(error_msg, operation_id=operation_id)",
+  "                error_msg = \"Parent context completed, child operation cannot continue\"")
+M("c17-completed-contexts-not-counted", "C17", "R6.boundary-on-small-histories", "state.py",
+  "                    if op.operation_type != OperationType.EXECUTION", "                    if op.operation_type != OperationType.CONTEXT")
